@@ -76,6 +76,9 @@ type H struct {
 // as a test cleanup.
 func Begin(t *testing.T, prop, job string) *H {
 	e := GetEnv()
+	if j := os.Getenv("VERIF_JOB"); j != "" {
+		job = j // the driver's name for this run (one test can serve several jobs)
+	}
 	h := &H{Env: e, t: t, nt: map[uint64]struct{}{}, start: time.Now(), bestSize: -1}
 	h.sh = evid.Shard{Property: prop, Job: job, ShardID: e.Shard, Seed: e.Seed,
 		Classes: map[string]int64{}, Excluded: map[string]int64{}, PerConfig: map[string]int64{}}
